@@ -1,0 +1,77 @@
+//go:build verif
+
+// Package verifhook provides named instrumentation points for the runtime
+// verification harness. It only exists in builds with the "verif" tag; without
+// the tag Point is an empty function (see nohook.go).
+package verifhook
+
+import (
+	"os"
+	"runtime"
+	"strconv"
+	"strings"
+	"sync"
+	"sync/atomic"
+	"time"
+)
+
+// Handler is called at every Point.
+type Handler func(name string)
+
+var handler atomic.Value // of Handler
+
+var (
+	envOnce   sync.Once
+	envDelays map[string]time.Duration
+	envYield  int64 // permille of points at which to yield
+	counter   uint64
+)
+
+// SetHandler installs an in-process handler (nil restores the default, environment-driven one).
+func SetHandler(h Handler) {
+	if h == nil {
+		h = defaultHandler
+	}
+	handler.Store(h)
+}
+
+func loadEnv() {
+	envDelays = make(map[string]time.Duration)
+	// VERIF_HOOK_DELAYS="name=dur,name=dur"
+	for _, kv := range strings.Split(os.Getenv("VERIF_HOOK_DELAYS"), ",") {
+		parts := strings.SplitN(kv, "=", 2)
+		if len(parts) != 2 {
+			continue
+		}
+		if d, err := time.ParseDuration(parts[1]); err == nil {
+			envDelays[parts[0]] = d
+		}
+	}
+	if v, err := strconv.ParseInt(os.Getenv("VERIF_HOOK_YIELD"), 10, 64); err == nil {
+		envYield = v
+	}
+}
+
+func defaultHandler(name string) {
+	envOnce.Do(loadEnv)
+	if d, ok := envDelays[name]; ok {
+		time.Sleep(d)
+		return
+	}
+	if envYield > 0 {
+		n := atomic.AddUint64(&counter, 0x9E3779B97F4A7C15)
+		if int64((n>>33)%1000) < envYield {
+			runtime.Gosched()
+		}
+	}
+}
+
+// Point marks a place between two critical sections where the harness may delay or yield.
+func Point(name string) {
+	h, _ := handler.Load().(Handler)
+	if h == nil {
+		defaultHandler(name)
+		return
+	}
+	h(name)
+}
